@@ -29,7 +29,8 @@ IMPORTS = "From Verde Require Import Lib.QList Model.BlockReduce Model.Weights."
 SHARD = 40
 RULE = ("BlockMean.filter: clouds of 1..60 points (uniform / clustered / 2-D grids) with pairwise distinct data on a "
         "1/4 lattice in [-30,30] (1..3 components), blocks of one and of many members, no weights or one distinct "
-        "non-negative weight array per component (positive sum per block), uncertainty on/off, center_coordinates, "
+        "non-negative weight array per component (positive sum per block; 20 % constant - all equal, never 1, a different "
+        "constant per component - and 15 % piecewise-constant weights in both weighted modes, plus fixed edge cases), uncertainty on/off, center_coordinates, "
         "drop_coords, extra coordinates, spacing/shape/region variants, read-only inputs, planted blocks whose "
         "variance is just below / above the tolerance; uncertainty=True without weights. variance_to_weights: "
         "arrays of 0..12 values drawn from {0, tol, nextafter(tol, +-), 1e-16, 1e-100, negatives, NaN, 1e100, ordinary "
@@ -177,7 +178,8 @@ def make_bm_case(vd, coords, data, weights, kw, kind, expect_valid=True):
            "labels_from_block_split": labels, "read_only_inputs": bool(kw.get("_readonly")),
            "ddof_probed": probe_ddof(vd),
            "dtypes": [str(np.asarray(a).dtype) for a in list(coords) + list(data) + (list(weights) if weights is not None else [])],
-           "layouts": kw.get("_layouts"), "instance_reused": bool(kw.get("_twice"))}
+           "layouts": kw.get("_layouts"), "instance_reused": bool(kw.get("_twice")),
+           "weight_pattern": kw.get("_wpattern")}
     out = [obs[0]] + ([[a.tolist() for a in o] for o in obs[1:]] if obs[0] == "ok" else list(obs[1:])) + [{"inputs_and_params_unchanged": unchanged, "get_params_unchanged": params_ok}]
     return Case(inp, out, term, repro, kind, nontrivial=nontrivial)
 
@@ -248,6 +250,25 @@ def random_bm_config(rnd, vd, i, mode):
                 for j in rnd.sample(range(n), max(1, n // 8)):
                     wv[j] = 0.0
             weights.append(np.array(wv))
+    if weights is not None:
+        # constant (all equal, never 1) and piecewise-constant input weights, different per component: they
+        # cancel in the weighted mean but not in 1 / sum(w), and must not be mistaken for "no weights"
+        pat = rnd.random()
+        ints = weights[0].dtype.kind in "iu" or weights[0].dtype == np.float32
+        levels = [2, 3, 5, 7, 11, 13] if ints else [0.25, 0.5, 2.0, 2.5, 3.0, 7.0]
+        if pat < 0.2:
+            consts = rnd.sample(levels, len(weights))
+            weights = [np.full(n, c).astype(w.dtype) for c, w in zip(consts, weights)]
+            kw["_wpattern"] = "constant"
+        elif pat < 0.35:
+            new = []
+            for w in weights:
+                k = rnd.randint(2, 3)
+                cuts = sorted(rnd.sample(range(1, n), min(k - 1, n - 1))) if n > 1 else []
+                lv = rnd.sample(levels, k)
+                new.append(np.array([lv[sum(j >= c for c in cuts)] for j in range(n)]).astype(w.dtype))
+            weights = new
+            kw["_wpattern"] = "piecewise-constant"
     if shape2d is not None:
         coords = [c.reshape(shape2d) for c in coords]
         data = [d.reshape(shape2d) for d in data]
@@ -332,6 +353,22 @@ def bm_edge_cases(vd):
             arrs = [apply_layout(a, t) for a, t in zip(arrs, tags + ["F"])]
             out.append((arrs[:3], arrs[3:5], None if unc is None else arrs[5:7], kw,
                         "bm-edge-%s-%s" % ("unweighted" if unc is None else ("uncertainty" if unc else "wvariance"), name)))
+    # constant (all equal, not 1) and piecewise-constant input weights on blocks of 2, 3, 1, 2, 1, 4 members, all
+    # weighted modes; constants differing between components
+    one = np.ones(13)
+    pw = A([2.0, 2.0, 2.0, 2.0, 0.5, 0.5, 0.5, 0.5, 0.5, 3.0, 3.0, 3.0, 3.0])
+    for unc in (True, False):
+        for center in (False, True):
+            kw = dict(center_coordinates=center, drop_coords=center, spacing=1, region=(0, 3, 0, 2), uncertainty=unc)
+            name = "bm-edge-constw-" + ("uncertainty" if unc else "wvariance")
+            c = lambda: [e.copy(), n.copy(), up.copy()]
+            out.append((c(), [d0.copy()], [one * 2.5], dict(kw), name))
+            out.append((c(), [d1.copy()], [one * 0.125], dict(kw, _tuple1=True), name))
+            out.append((c(), [d0.copy(), d1.copy(), d2.copy()], [one * 0.5, one * 4.0, one * 3.0], dict(kw), name))
+            out.append((c(), [d0.copy(), d1.copy()], [one * 2.0, w1.copy()], dict(kw), name))
+            out.append((c(), [d0.copy(), d1.copy()], [pw.copy(), pw[::-1].copy()], dict(kw), name))
+            out.append((c(), [d1.copy()], [(one * 3).astype(np.int64)], dict(kw, _twice=True), name))
+            out.append((c(), [d1.copy().astype(np.float32)], [(one * 7).astype(np.float32)], dict(kw, _epsd="eps20"), name))
     # one object, two surveys: the instance first filters a cloud with another bounding box (shifted / larger /
     # smaller, by point count) and point count; region=None, so each call must infer its own region
     for npts in (12, 13, 14):
@@ -489,6 +526,8 @@ def generate(tier, seed):
         dts = {str(np.asarray(a).dtype) for a in data}
         if dts != {"float64"}:
             kind += "-" + sorted(dts)[0]
+        elif kw.get("_wpattern"):
+            kind += "-constw"
         elif kw.get("_layouts"):
             kind += "-layouts"
         elif kw.get("_twice"):
